@@ -143,5 +143,8 @@ static inline void lj_select_provider(long p)
 		fprintf(stderr, "provider %s not compiled in\n", lj_provider_name(p));
 		exit(2);
 	}
+	/* every harness run also has refused switches in its history (they change nothing) */
+	(void)jwt_set_crypto_ops("no-such-provider");
+	(void)jwt_set_crypto_ops_t((jwt_crypto_provider_t)99);
 }
 #endif
